@@ -106,7 +106,7 @@ int LincomEntry::SetScale(const char *scale, int index)
     r = gd_alter_entry(D->D, E.field, &E, 0);
 
     if (!r) {
-      r = gd_get_constant(D->D, scale, GD_COMPLEX128, E.u.lincom.cm + index);
+      r = gd_cxx_get_scalar(D->D, scale, GD_COMPLEX128, E.u.lincom.cm + index);
       E.u.lincom.m[index] = E.u.lincom.cm[index][0];
     }
   }
@@ -156,7 +156,7 @@ int LincomEntry::SetOffset(const char *scale, int index)
     r = gd_alter_entry(D->D, E.field, &E, 0);
 
     if (!r) {
-      r = gd_get_constant(D->D, scale, GD_COMPLEX128, E.u.lincom.cb + index);
+      r = gd_cxx_get_scalar(D->D, scale, GD_COMPLEX128, E.u.lincom.cb + index);
       E.u.lincom.b[index] = E.u.lincom.cb[index][0];
     }
   }
